@@ -1759,6 +1759,7 @@ package sio
 //@   callsite (*clientSocket).emit go
 //@     requires asked >= 1 && conn [C15.retry.queue.sends.only.while.connected]
 //@     requires recv == pq.socket && arg0 == "" && !arg2 && arg3 && sent == 0 [C15.retry.queue.send.flags]
+//@     requires len(pq.queuedPackets) >= 1 && pq.queuedPackets[0] != nil && arg1 == pq.queuedPackets[0].timeout [C03.retry.queue.emits.with.the.packets.own.timeout]
 //@     requires len(pq.queuedPackets) >= 1 && pq.queuedPackets[0] != nil && arg4 == pq.queuedPackets[0].v [C15.retry.queue.sends.the.head]
 //@     update sent = sent + 1
 //@   ensures sent <= 1 [C15.retry.queue.one.at.a.time]
@@ -1897,6 +1898,7 @@ package sio
 //@   callsite IsEventReservedForClient skip
 //@   callsite (*clientPacketQueue).addToQueue skip
 //@     requires s.config.Retries > 0 && !fromQueue && !volatile && encoded == 0 [C02.cli.retries.queue.only.for.its.own.traffic]
+//@     requires arg2 == timeout [C03.retry.queue.keeps.the.emits.timeout]
 //@     update queued = queued + 1
 //@   callsite TypeOf skip
 //@   callsite Kind skip
